@@ -36,7 +36,7 @@ m = {
     "engines": [{
         "name": "lean-model+correspondence", "path": "/verif/lean, /verif/harness, /verif/bin/check",
         "serves_properties": [c["property_id"] for c in checks],
-        "kind_free_text": "Lean 4 theorems about an executable model of the crate; the model is tied to /repo on every run by a white-box differential correspondence check (Rust harness drives the real crate, native Lean driver re-executes every operation on the model and compares results, index tables, peeks and comparison counts), two translators that regenerate parts of the model from the Rust source text on every run (gen_arith.py: the index arithmetic and the deserialization pre-allocation; gen_src.py: 70 functions of store.rs and both queue modules as terms of a deep-embedded IR, with Lean theorems that the hand-written model functions equal the IR interpreter on the generated terms), and an unsafe-site inventory",
+        "kind_free_text": "Lean 4 theorems about an executable model of the crate; the model is tied to /repo on every run by a white-box differential correspondence check (Rust harness drives the real crate, native Lean driver re-executes every operation on the model and compares results, index tables, peeks and comparison counts), two translators that regenerate parts of the model from the Rust source text on every run (gen_arith.py: the index arithmetic and the deserialization pre-allocation; gen_src.py: 110 functions of store.rs, both queue modules and the iterator files as terms of a deep-embedded IR, with Lean theorems that the hand-written model functions — and, for every comparison-performing function, the crash model's fused twins — equal the IR interpreter on the generated terms), and an unsafe-site inventory",
     }],
     "checks": checks,
     "not_applicable": na,
